@@ -92,6 +92,18 @@ def runOp (cs : Suite G1Pt) (op : String) (a : List String) : Option (Res Bytes)
     match PoKSignature.fromBytes env proof with
     | .ok π => pure <| unit (proofVerify env cs π pk dmsgs idx hdr ph)
     | _ => none
+  | "proofverifyraw", [pk, A, B, D, e, r1, r3, m, c, hdr, ph, dmsgs, idx] => do
+    let pk ← pPk pk; let A ← pG1 A; let B ← pG1 B; let D ← pG1 D
+    let e ← pScalar e; let r1 ← pScalar r1; let r3 ← pScalar r3; let m ← pListWith pScalar m; let c ← pScalar c
+    let hdr ← pOBytes hdr; let ph ← pOBytes ph; let dmsgs ← pOList dmsgs; let idx ← pOIdx idx
+    pure <| unit (proofVerify env cs ⟨A, B, D, e, r1, r3, m, c⟩ pk dmsgs idx hdr ph)
+  | "blindproofverifyraw", [pk, A, B, D, e, r1, r3, m, c, hdr, ph, L, dmsgs, dcmsgs, idx, cidx] => do
+    let pk ← pPk pk; let A ← pG1 A; let B ← pG1 B; let D ← pG1 D
+    let e ← pScalar e; let r1 ← pScalar r1; let r3 ← pScalar r3; let m ← pListWith pScalar m; let c ← pScalar c
+    let hdr ← pOBytes hdr; let ph ← pOBytes ph
+    let L ← (if L == "-" then some none else (pNat L).map some)
+    let dmsgs ← pOList dmsgs; let dcmsgs ← pOList dcmsgs; let idx ← pOIdx idx; let cidx ← pOIdx cidx
+    pure <| unit (blindProofVerify env cs ⟨A, B, D, e, r1, r3, m, c⟩ pk hdr ph L dmsgs dcmsgs idx cidx)
   | "commit", [cmsgs, tape] => do
     let cmsgs ← pOList cmsgs; let tape ← pTape tape
     pure <| mapR (fun cb => Commitment.toBytes env cb.1 ++ env.sEnc cb.2) (commit env cs cmsgs tape)
